@@ -44,7 +44,8 @@ def plan(tier, seed):
                                  "raise-and-catch a motif-limit error, pickle round trip of another diagram)"},
         "rule": "byte-identical dumps (ids, spaces, flags, depths, edges, motif lists, seeds in order, sets, summary(), interventions as "
                 "returned, module-level state) across all runs of the same (network, strategy); non-trivial = distinct (network, strategy)",
-        "assumptions": [],
+        "assumptions": ["the per-instance hash-map randomisation inside the AEON extension module is seeded from OS entropy and cannot be "
+                        "enumerated: it is covered by repetition (one sample per process and per repeated in-process run), not exhaustively"],
         "unit_timeout": 900,
     }
 
